@@ -265,14 +265,20 @@ theorem mutate_life (s : St) (f : Option Nat) (how : Mut) (h : Life s) (he : s.e
   · simpa using h.ni
   · simpa using h.ver
 
+/-- The stop command (fix C04-F6): the pending verification request is withdrawn, then `stop`. -/
+theorem stopCmd_life (s : St) (h : Life s) : Life (({ s with doVerify := false }).stop false) :=
+  stop_life _ false (h.congr (by lframe))
+
 theorem handle_life (s : St) (p : Parked) (kn : Nat → Bool) (op : Op) (h : Life s) :
     Life (handle s p kn op).1.1 := by
   unfold handle
   split
   · exact start_life (s, []) h
-  · simp only [onSt_fst]; exact (stop_life s false h).congr (by lframe)
+  · simp only [onSt_fst]; exact (stopCmd_life s h).congr (by lframe)
+  · simp only [onSt_fst]; exact stopCmd_life s h
   · simp only [onSt_fst]
     exact (handleVerifyCommand_life ({ s with persisted := none }, []) (h.congr (by lframe))).congr (by lframe)
+  · exact handleVerifyCommand_life ({ s with persisted := none }, []) (h.congr (by lframe))
   · exact h
   · exact h
   · exact h.congr (by lframe)
